@@ -5,6 +5,7 @@ import (
 	"encoding/hex"
 	"errors"
 	"fmt"
+	"math"
 	"os"
 	"strconv"
 	"time"
@@ -247,15 +248,37 @@ func (v *CheckPremiumAmount) Execute(services *SwapServices, swap *SwapData) Eve
 			return swap.HandleError(fmt.Errorf("premium amt too high: %d, limit : %d",
 				swap.SwapInAgreement.Premium, swap.SwapInRequest.PremiumLimit))
 		}
+		if err := checkAmountWithPremium(swap.SwapInRequest.Amount, swap.SwapInAgreement.Premium); err != nil {
+			return swap.HandleError(err)
+		}
 		return v.next.Execute(services, swap)
 	} else if swap.SwapOutAgreement != nil {
 		if swap.SwapOutAgreement.Premium > swap.SwapOutRequest.PremiumLimit {
 			return swap.HandleError(fmt.Errorf("premium amt too high: %d, limit : %d",
 				swap.SwapOutAgreement.Premium, swap.SwapOutRequest.PremiumLimit))
 		}
+		if err := checkAmountWithPremium(swap.SwapOutRequest.Amount, swap.SwapOutAgreement.Premium); err != nil {
+			return swap.HandleError(err)
+		}
 		return v.next.Execute(services, swap)
 	}
 	return swap.HandleError(fmt.Errorf("unexpected swap data: %v", swap))
+}
+
+// checkAmountWithPremium rejects a premium that would make the swap amount plus
+// premium negative, or so large that it overflows when it is converted to
+// millisatoshi. Without it a hugely negative premium passes the limit check
+// and wraps the claim / opening amount to an arbitrary value.
+func checkAmountWithPremium(amountSat uint64, premium int64) error {
+	const maxSat = math.MaxInt64 / 1000
+	if amountSat > maxSat || premium > maxSat {
+		return fmt.Errorf("swap amount %d with premium %d is out of range", amountSat, premium)
+	}
+	total := int64(amountSat) + premium
+	if total < 0 || total > maxSat {
+		return fmt.Errorf("swap amount %d with premium %d is out of range", amountSat, premium)
+	}
+	return nil
 }
 
 type CreateAndBroadcastOpeningTransaction struct{}
